@@ -1,6 +1,6 @@
 """R-COVER/Trace + interner ownership (C18): every owning path to a Cc is traced; interned handles own exactly one
 counted reference and give it back on drop."""
-from ..mir import strip, show, short_path, contains
+from ..mir import rel_fact, strip, show, short_path, contains
 from ..report import ok, bad, info, site, Floor
 
 RULE = "R-TRACE"
@@ -169,17 +169,20 @@ def run_interner(prog):
     key = "maybe_unpool:threshold"
     good = False
     if f is not None:
-        for u, v, (d, val) in f._cond_edge_list():
-            sd = strip(d)
-            if sd[0] == "bin" and sd[1] in ("Le", "Gt") and sd[3] == ("const", 2) and contains(sd[2], lambda x: x[0] == "call" and x[1].endswith("strong_count")):
-                good = True
-            if sd[0] == "bin" and sd[1] in ("Lt", "Ge") and sd[3] == ("const", 3) and contains(sd[2], lambda x: x[0] == "call" and x[1].endswith("strong_count")):
-                good = True
+        # the condition under which unpool() is called, in canonical form: strong_count <= 2 (or < 3), however it is spelled
+        for b, t in f.calls():
+            if (t.get("res") or t.get("fn") or "").endswith("::unpool") and not f.is_cleanup(b):
+                for u, v, (d, val) in f.facts_at(b):
+                    r = rel_fact(d, val)
+                    if r and contains(r[1], lambda x: x[0] == "call" and x[1].endswith("strong_count")) and \
+                            ((r[0] == "Le" and r[2][:2] == ("const", 2)) or (r[0] == "Lt" and r[2][:2] == ("const", 3))):
+                        good = True
     obs.append(ok(R, key, site(f) if f else "", "unpool when strong_count <= 2 (this handle + the pool)") if good else
                bad(R, key, site(f) if f else "", "maybe_unpool does not unpool exactly when strong_count <= 2"))
     # (5) the refcount has exactly two writers: Inner::clone (+1) and Drop for Inner (-1)
     writers = sorted({cf.path for cf, b, t in prog.callers.get(I + "inner::InnerHeader::set_refcnt", [])})
-    want = {I + "inner::Inner::clone", "<%sinner::Inner as core::ops::drop::Drop>::drop" % I, I + "inner::Inner::new_raw"}
+    want = {I + "inner::Inner::clone", "<%sinner::Inner as core::clone::Clone>::clone" % I, "<%sinner::Inner as core::ops::drop::Drop>::drop" % I,
+            I + "inner::Inner::new_raw"}
     key = "refcount:writers"
     extra = [w for w in writers if w not in want and not any(w.startswith(x) for x in want)]
     obs.append(ok(R, key, "", "set_refcnt is called only from %s" % [short_path(w) for w in writers]) if writers and not extra else
